@@ -171,6 +171,13 @@ pub const KNOWN_HEADERS: &[&str] = &[
     "Referer", "User-Agent", "Via", "Warning", "Age", "Allow", "ETag", "Expires", "Last-Modified", "Link",
     "Location", "Server", "Content-Language", "Content-Location", "Content-Disposition",
     "Access-Control-Request-Method", "Access-Control-Request-Headers",
+    // further registered field names Humphrey has no special knowledge of today (seed C02-15: a header newly made a
+    // "known" one lost its name on serialisation); none of them changes framing or routing
+    "If-Match", "If-None-Match", "If-Modified-Since", "If-Unmodified-Since", "If-Range", "Range", "Max-Forwards",
+    "Proxy-Authorization", "Accept-Ranges", "Retry-After", "Vary", "WWW-Authenticate", "Proxy-Authenticate", "Content-Range",
+    "Content-MD5", "Content-Security-Policy", "Strict-Transport-Security", "X-Requested-With", "X-Real-IP", "X-Forwarded-Host",
+    "X-Forwarded-Proto", "X-Frame-Options", "X-Content-Type-Options", "DNT", "Save-Data", "Priority", "Early-Data",
+    "Sec-Fetch-Site", "Sec-Fetch-Mode", "Sec-Fetch-Dest", "Sec-Fetch-User", "Sec-CH-UA", "Upgrade-Insecure-Requests", "Alt-Svc", "Refresh",
 ];
 
 fn mixed_case(s: &str, bits: u64) -> String {
